@@ -113,3 +113,68 @@ pub fn show_asg(m: &BTreeMap<usize, MTy>) -> String {
     let parts: Vec<String> = m.iter().map(|(k, t)| format!("V{} := {}", k, ty_text(t))).collect();
     format!("[{}]", parts.join(", "))
 }
+
+/// All definitely-true ground solutions within the universe (None when the space is too large to enumerate).
+pub fn true_solutions(sem: &mut Sem, uni: &Universe, goal: &MGoal, ex: &[(usize, u32)]) -> Option<Vec<BTreeMap<usize, MTy>>> {
+    let body = strip_exists(goal);
+    let cands: Vec<Vec<MTy>> = ex.iter().map(|(_, l)| uni.terms.iter().filter(|t| t.max_ph_universe() <= *l).cloned().collect()).collect();
+    let total: usize = cands.iter().map(|c| c.len()).product();
+    if total > ENUM_CAP {
+        return None;
+    }
+    let mut sols = vec![];
+    let mut f = |cur: &[MTy]| -> bool {
+        let asg: BTreeMap<usize, MTy> = ex.iter().zip(cur).map(|((v, _), t)| (*v, t.clone())).collect();
+        if sem.eval(uni, &mut vec![], &body, &asg) == Tri::True {
+            sols.push(asg);
+        }
+        true
+    };
+    if cands.is_empty() {
+        f(&[]);
+    } else {
+        assignments(&cands, &mut f);
+    }
+    Some(sols)
+}
+
+/// Soundness of one definite answer substitution: Ok(true) = checked and no in-bound ground instance is definitely
+/// false; Ok(false) = too many instances to enumerate; Err = refuted.
+pub fn sound_instances(sem: &mut Sem, uni: &Universe, goal: &MGoal, ex: &[(usize, u32)], m: &BTreeMap<usize, MTy>, us: &[u32]) -> Result<bool, String> {
+    let body = strip_exists(goal);
+    for (var, l) in ex {
+        if let Some(t) = m.get(var) {
+            if t.max_ph_universe() > *l {
+                return Err(format!("answer assigns V{} a placeholder outside its universe: {}", var, ty_text(t)));
+            }
+        }
+    }
+    let acands: Vec<Vec<MTy>> = us.iter().map(|u| uni.terms.iter().filter(|t| t.max_ph_universe() <= *u).cloned().collect()).collect();
+    let total: usize = acands.iter().map(|c| c.len()).product();
+    if total > ENUM_CAP {
+        return Ok(false);
+    }
+    let max_size = sem.atom_max;
+    let mut err = None;
+    let mut f = |inst: &[MTy]| -> bool {
+        let s = |i: usize| if i >= 1000 && i - 1000 < inst.len() { inst[i - 1000].clone() } else { MTy::Var(i) };
+        let asg: BTreeMap<usize, MTy> = ex.iter().map(|(v, _)| (*v, m.get(v).map(|t| t.subst(&s)).unwrap_or_else(|| uni.terms[0].clone()))).collect();
+        if asg.values().any(|t| t.size() > max_size || !t.is_ground()) {
+            return true;
+        }
+        if sem.eval(uni, &mut vec![], &body, &asg) == Tri::False {
+            err = Some(format!("answer {} has the definitely false instance {}", show_asg(m), show_asg(&asg)));
+            return false;
+        }
+        true
+    };
+    if acands.is_empty() {
+        f(&[]);
+    } else {
+        assignments(&acands, &mut f);
+    }
+    match err {
+        Some(e) => Err(e),
+        None => Ok(true),
+    }
+}
